@@ -636,7 +636,7 @@ func runC09(c *Ctx) {
 	} else {
 		r.Set("address_space_limit", "16 GiB")
 	}
-	r.SetRule("requests generated from a grammar of the routed surface: 16 methods x bucket/object/hostile paths x 0-6 query parameters out of 28 sub-resource and paging names with values from hostile classes (empty, negative, 2^31/2^63/2^64 neighbourhood, non-numeric, NUL, invalid UTF-8, overlong, existing and garbage upload/version ids, malformed tokens) x up to 3 headers out of 14 kinds (Range, Content-MD5, copy source, streaming sha256, decoded length, conditionals, dates, force-delete, CORS, multipart form, metadata, declared length variants) x 31 bodies (valid/mutated XML for complete/delete/versioning, entity bombs, binary), against stores with objects, versions, delete markers, a version-deleted current, a key of which only delete markers remain, pending uploads with gaps and pending uploads whose bucket has been deleted; all seven backend configurations plus option variants (host-bucket, auto-bucket, no-versioning, unimplemented-page error, integrity off); every response is judged (no panic, status 200-599, no control characters in response header values, error body is an S3 <Error> document whose code fits the status) and a canary script of correct requests on the fuzzed buckets and an untouched bucket runs after every 50 requests; a CompleteMultipartUpload that names one 2 MiB part 10001 times, under a 16 GiB address-space limit; browser form uploads with 9 key classes x 11 field classes (control characters, NUL, CRLF, DEL, high bytes in metadata values and names, empty / unaddressable keys) plus every control byte at the start, in the middle and at the end of a stored field value, each followed by GET/HEAD of the key, a page-by-page walk of the bucket that must end, and the canary; a client stalled half-way through the body of a PUT or of a part upload while eight other correct requests are sent (a request that does not return is judged by its goroutine: parked on a lock in two dumps = it waits for the stalled client); then rounds in which 8 clients fire such requests at one server concurrently (every response judged, hang watchdog on every in-flight request, canary after each round); distinct = (config, method, route class, parameter-name set, status, error code)")
+	r.SetRule("requests generated from a grammar of the routed surface: 16 methods x bucket/object/hostile paths x 0-6 query parameters out of 28 sub-resource and paging names with values from hostile classes (empty, negative, 2^31/2^63/2^64 neighbourhood, non-numeric, NUL, invalid UTF-8, overlong, existing and garbage upload/version ids, malformed tokens) x up to 3 headers out of 14 kinds (Range, Content-MD5, copy source, streaming sha256, decoded length, conditionals, dates, force-delete, CORS, multipart form, metadata, declared length variants) x 31 bodies (valid/mutated XML for complete/delete/versioning, entity bombs, binary), against stores with objects, versions, delete markers, a version-deleted current, a key of which only delete markers remain, pending uploads with gaps and pending uploads whose bucket has been deleted; all seven backend configurations plus option variants (host-bucket, auto-bucket, no-versioning, unimplemented-page error, integrity off); every response is judged (no panic, status 200-599, no control characters in response header values, error body is an S3 <Error> document whose code fits the status) and a canary script of correct requests on the fuzzed buckets and an untouched bucket runs after every 50 requests; a CompleteMultipartUpload that names one 2 MiB part 10001 times, under a 16 GiB address-space limit; browser form uploads with 9 key classes x 11 field classes (control characters, NUL, CRLF, DEL, high bytes in metadata values and names, empty / unaddressable keys) plus every control byte at the start, in the middle and at the end of a stored field value, each followed by GET/HEAD of the key, a page-by-page walk of the bucket that must end, and the canary; a client stalled half-way through the body of a PUT or of a part upload while eight other correct requests are sent (a request that does not return is judged by its goroutine: parked on a lock in two dumps = it waits for the stalled client); then rounds in which 8 clients fire such requests at one server concurrently (every response judged, hang watchdog on every in-flight request, canary after each round); on the file backends 25 kinds of request, mutating and reading, each served while the n-th file-system call of a class fails with ENOSPC or EIO (a wrapper around the afero file system): the answer is judged like every other and the canary runs once the fault is over; distinct = (config, method, route class, parameter-name set, status, error code)")
 	perCfg := r.Pick(40000, 1000000)
 	var cfgs []c09Config
 	for _, k := range drv.AllKinds {
@@ -788,6 +788,7 @@ func runC09(c *Ctx) {
 	for _, s := range []string{"GET /fz-one/up/gaps?uploadId=<id>&part-number-marker=18446744073709551616", "PUT /fz-one/k  x-amz-copy-source: nobucket", "POST /fz-one/up/gaps?uploadId=<id> body=<Part><PartNumber>-1</PartNumber>…"} {
 		r.Sample(s)
 	}
+	runC09Faults(r)
 	r.Require("canary_runs", 200)
 	r.Require("responses_2xx", 1000)
 	r.Require("responses_4xx", 1000)
